@@ -43,7 +43,11 @@ pub fn sections(ctx: &Ctx) -> Vec<(&'static str, u64)> {
         Tier::Quick => 80,
         Tier::Thorough => 4000,
     } * ctx.scale;
-    let mut v = vec![("baseline-w1", w1), ("baseline-w5", w5)];
+    let w2 = match ctx.tier {
+        Tier::Quick => 240,
+        Tier::Thorough => 6000,
+    } * ctx.scale;
+    let mut v = vec![("baseline-w1", w1), ("baseline-w5", w5), ("baseline-w2", w2)];
     for s in FAULT_SECTIONS {
         v.push((s, entries * chunks(ctx.tier)));
     }
@@ -505,6 +509,12 @@ pub fn cases(ctx: &Ctx, section: &str, i: u64) -> Vec<Case> {
                 total_case(&sc.label, fs.clone(), sc.task.clone(), key(&mut rng), STACK_SMALL),
                 total_case(&sc.label, fs, sc.task.clone(), key(&mut rng), STACK_MAIN),
             ]
+        }
+        "baseline-w2" => {
+            // generated container-filling programs (a quarter rejected, some probing the edges of
+            // constant evaluation), fault free
+            let (label, fs, task) = crate::w2::scenario(&mut rng.sub("w2"), i);
+            vec![total_case(&label, fs, task, key(&mut rng), STACK_MAIN)]
         }
         "baseline-w5" => {
             let lo = (i * SNIPPET_BATCH) as usize;
